@@ -30,6 +30,8 @@ var endings = []ending{
 	{name: "completeXabortdrop", ops: func(b int) []Op { return []Op{{K: "incr", B: b, N: 2}, {K: "abort", B: b, F: true}} }, completed: true},
 	// a bar with unknown total aborted while current == total: must end aborted, not completed
 	{name: "abort0", total: -1, ops: func(b int) []Op { return []Op{{K: "abort", B: b}} }, aborted: true},
+	// an increment through the moving-average path that overshoots the total: completed, shown at the total
+	{name: "ewmaover", ops: func(b int) []Op { return []Op{{K: "ewma", B: b, N: 1}, {K: "ewma", B: b, N: 4}} }, completed: true},
 }
 
 func wrapD(wrap string) DecorSpec { return DecorSpec{Wrap: wrap, Widths: []int{4}} }
@@ -206,7 +208,7 @@ func c03Oracle(sp *Spec, x *X, res *mcrt.Result) (string, string) {
 func init() {
 	register(&Family{
 		Property: "C03",
-		Rule: "auto-refresh (and manual-refresh for the no-write-after-Wait clause) programs with 1..3 bars, every combination of endings {complete in two steps, complete in one step, abort, abort+drop, remove-on-complete, SetCurrent beyond total}, " +
+		Rule: "auto-refresh (and manual-refresh for the no-write-after-Wait clause) programs with 1..3 bars, every combination of endings {complete in two steps, complete in one step, abort, abort+drop, remove-on-complete, SetCurrent beyond total, Abort(true) after completion, abort at current == total of an unknown total, moving-average increments overshooting the total}, a finished no-pop bar in pop mode, " +
 			"each bar decorated with on-complete/on-abort wrappers (plain and width-synchronised); every schedule within the deviation bound: last increments, ticks, early refresh pumps and Wait interleave freely. " +
 			"Oracle: the last write before Wait returned parses into exactly one row per surviving bar in its final state with its on-complete/on-abort text; removed bars absent; write counter unchanged after Wait (also after quiescence).",
 		Items: func(tier string) []Item {
@@ -216,7 +218,11 @@ func init() {
 				bound = 2
 			}
 			for n := 1; n <= 2; n++ {
-				for _, sp := range endingPrograms("c03", "auto", -1, n, endings, 0) {
+				ends := endings
+				if n == 2 {
+					ends = endings[:8]
+				}
+				for _, sp := range endingPrograms("c03", "auto", -1, n, ends, 0) {
 					items = append(items, specItems("C03", sp, bound, allStrats, nil, c03Oracle)...)
 				}
 			}
@@ -229,6 +235,33 @@ func init() {
 				sp.Main = append(sp.Main, Op{K: "add", B: 1})
 				sp.Clients = append(sp.Clients, []Op{{K: "cancel"}})
 				items = append(items, specItems("C03", sp, bound+1, []int{mcrt.StratFIFO, mcrt.StratNewest}, nil, c03Oracle)...)
+			}
+			// pop mode: a no-pop bar that has finished stays in the frames, in its final state, to the end
+			for _, rf := range []string{"auto", "manual"} {
+				sp := &Spec{Name: "c03-pop-nopop", Refresh: rf, Q: -1, Pop: true}
+				sp.Bars = []BarSpec{{Total: 1, NoPop: true}, {Total: 1}, {Total: 1}}
+				sp.Main = []Op{{K: "add", B: 0}, {K: "add", B: 1}, {K: "add", B: 2}}
+				ops := []Op{{K: "incr", B: 0, N: 1}, {K: "incr", B: 1, N: 1}}
+				if rf == "manual" {
+					ops = append(ops, Op{K: "refresh"}, Op{K: "refresh"}, Op{K: "refresh"}, Op{K: "refresh"}, Op{K: "refresh"}, Op{K: "incr", B: 2, N: 1}, Op{K: "refresh"}, Op{K: "refresh"}, Op{K: "refresh"})
+				} else {
+					ops = append(ops, Op{K: "sleep", N: 550}, Op{K: "incr", B: 2, N: 1})
+				}
+				sp.Clients = [][]Op{ops}
+				items = append(items, specItems("C03", sp, bound, allStrats, nil, func(sp *Spec, x *X, res *mcrt.Result) (string, string) {
+					if x.WaitStep == 0 {
+						return "wait-not-returned", "Progress.Wait did not return"
+					}
+					frames := x.Frames()
+					if len(frames) == 0 {
+						return "", ""
+					}
+					last := frames[len(frames)-1]
+					if r := last.Row(0); r == nil || r.Flags != "C" || r.Cur != r.Tot {
+						return "nopop-bar-not-final", fmt.Sprintf("the finished no-pop bar is not in the last frame in its final state: %s", last)
+					}
+					return "", ""
+				})...)
 			}
 			if tier == "thorough" {
 				for _, sp := range endingPrograms("c03", "auto", -1, 3, endings[:5], 0) {
